@@ -33,7 +33,7 @@ package parser
 //@ ext google.golang.org/protobuf/types/known/anypb.MarshalFrom
 //@   ensures true
 //@ func convertInterfaceToAny
-//@   prop C08
+//@   prop C08 C01
 //@   ensures every-value-is-carried: result1 == nil ==> result0 != nil
 //@   may_panic
 //@ ext google.golang.org/protobuf/types/known/anypb.UnmarshalTo
@@ -47,15 +47,16 @@ package parser
 //@   modifies *v.(*types.ColumnImage)
 //@   ensures result == nil ==> typed(v.(*types.ColumnImage))
 //@ func restoreColumn
-//@   prop C08
+//@   prop C08 C01
 //@   macro typed(col) := col.Value != nil ==> ((col.ColumnType == 91 || col.ColumnType == 92 || col.ColumnType == 93) ==> isT(col.Value, time.Time)) && ((col.ColumnType == -2 || col.ColumnType == -3 || col.ColumnType == -4) ==> isT(col.Value, []byte))
 //@   ensures decoded-by-the-column-images-own-rules: result1 == nil ==> typed(result0)
 //@   may_panic
 //@ func ConvertToIntree
-//@   prop C08
+//@   prop C08 C01
 //@   local intreeLog *undo.BranchUndoLog
 //@   local undoSqlLog undo.SQLUndoLog
 //@   local undoRow types.RowImage
+//@   local pbSqlLog *SQLUndoLog
 //@   requires protoLog != nil
 //@   let l := some(int, "l")
 //@   let r := some(int, "r")
@@ -64,7 +65,16 @@ package parser
 //@   macro colsok(cols) := 0 <= c && c < len(cols) ==> typed(cols[c])
 //@   macro imgok(img) := img != nil && 0 <= r && r < len(img.Rows) ==> colsok(img.Rows[r].Columns)
 //@   macro logsok(logs) := 0 <= l && l < len(logs) ==> imgok(logs[l].BeforeImage) && imgok(logs[l].AfterImage)
+//@   macro samecount(img, pb) := pb != nil ==> img != nil && len(img.Rows) == len(pb.Rows)
+//@   macro counted(logs) := 0 <= l && l < len(logs) && l < len(protoLog.Logs) && protoLog.Logs[l] != nil ==> samecount(logs[l].BeforeImage, protoLog.Logs[l].BeforeImage) && samecount(logs[l].AfterImage, protoLog.Logs[l].AfterImage)
+//@   macro inlog() := len(intreeLog.Logs) == rangeindex1 + 1 && rangeindex1 + 1 < len(protoLog.Logs) && pbSqlLog == protoLog.Logs[rangeindex1 + 1] && counted(intreeLog.Logs)
 //@   loop 1 invariant index: rangeindex1 >= -1
+//@   loop 1 invariant every-log-so-far-with-all-its-rows: len(intreeLog.Logs) == rangeindex1 + 1 && rangeindex1 < len(protoLog.Logs) && counted(intreeLog.Logs)
+//@   loop 2 invariant rows-so-far: rangeindex2 >= -1 && inlog() && pbSqlLog != nil && pbSqlLog.BeforeImage != nil && undoSqlLog.BeforeImage != nil && len(undoSqlLog.BeforeImage.Rows) == rangeindex2 + 1 && rangeindex2 < len(pbSqlLog.BeforeImage.Rows)
+//@   loop 3 invariant rows-so-far: rangeindex2 >= -1 && inlog() && pbSqlLog != nil && pbSqlLog.BeforeImage != nil && undoSqlLog.BeforeImage != nil && len(undoSqlLog.BeforeImage.Rows) == rangeindex2 + 1 && rangeindex2 + 1 < len(pbSqlLog.BeforeImage.Rows)
+//@   loop 4 invariant rows-so-far: rangeindex4 >= -1 && inlog() && pbSqlLog != nil && pbSqlLog.AfterImage != nil && undoSqlLog.AfterImage != nil && len(undoSqlLog.AfterImage.Rows) == rangeindex4 + 1 && rangeindex4 < len(pbSqlLog.AfterImage.Rows) && samecount(undoSqlLog.BeforeImage, pbSqlLog.BeforeImage)
+//@   loop 5 invariant rows-so-far: rangeindex4 >= -1 && inlog() && pbSqlLog != nil && pbSqlLog.AfterImage != nil && undoSqlLog.AfterImage != nil && len(undoSqlLog.AfterImage.Rows) == rangeindex4 + 1 && rangeindex4 + 1 < len(pbSqlLog.AfterImage.Rows) && samecount(undoSqlLog.BeforeImage, pbSqlLog.BeforeImage)
+//@   at return: assert every-stored-row-comes-back-in-its-own-image: len(result.Logs) == len(protoLog.Logs) && counted(result.Logs)
 //@   loop 1 invariant logs-typed: logsok(intreeLog.Logs)
 //@   loop 2 invariant logs-typed: logsok(intreeLog.Logs)
 //@   loop 2 invariant before-typed: imgok(undoSqlLog.BeforeImage)
